@@ -590,6 +590,7 @@ func (h *httpServerHandler) handleGet(ctx context.Context, w http.ResponseWriter
 	flusher.Flush()
 
 	// Create context, for canceling connection
+	verifYield("get.H")
 	connCtx, cancelConn := context.WithCancel(ctx)
 	localCancelFunc = cancelConn // Assign to the variable captured by defer
 
@@ -615,6 +616,7 @@ func (h *httpServerHandler) handleGet(ctx context.Context, w http.ResponseWriter
 	h.getSSEConnectionsLock.Unlock()
 
 	// Record connection information
+	verifYield("get.T")
 	h.logger.Infof("Established GET SSE connection, session ID: %s", session.GetID())
 
 	// If there's Last-Event-ID, try to resume stream
@@ -624,6 +626,7 @@ func (h *httpServerHandler) handleGet(ctx context.Context, w http.ResponseWriter
 
 	// Wait for connection to close
 	<-connCtx.Done()
+	verifYield("get.E")
 
 	// Clean up connection
 	h.getSSEConnectionsLock.Lock()
